@@ -336,7 +336,15 @@ def tokenize_deb822_file(sequence: Iterable[Union[str, bytes]]) -> Iterable[Deb8
 
             # If there are multiple whitespace-only lines, we combine them
             # into one token.
-            r = list(text_stream.takewhile(lambda x: _RE_WHITESPACE_LINE.match(x) is not None))
+            # ... but only complete lines, so that the token ends on a newline
+            # (a final line without a newline becomes a token of its own).
+            if auto_correct_newlines:
+                r = [x + "\n" for x in
+                     text_stream.takewhile(lambda x: _RE_WHITESPACE_LINE.match(x) is not None
+                                           and not x.endswith("\n"))]
+            else:
+                r = list(text_stream.takewhile(lambda x: _RE_WHITESPACE_LINE.match(x) is not None
+                                               and x.endswith("\n")))
             if r:
                 line += "".join(r)
 
